@@ -40,6 +40,7 @@ def run(ctx, repo):
     ctx.call(R6B.r_composer_errors, repo)
     ctx.call(R6B.r_deep_iff_setstate, repo)
     ctx.call(R6B.r_constructed_key_hashing, repo)
+    ctx.call(R6B.r_value_chain_visited, repo)
 
 
 if __name__ == '__main__':
